@@ -19,7 +19,9 @@ EXTERNAL_ODD_STREAM = True
 RULE = ('8 helpers (route/resource/static/current_route x url/path) on generated routes (literals/placeholders/star), '
         'elements, query (str / pair list / mapping; None, sequences, bytes, ints), anchor, scheme/host/port/app_url '
         'overrides, SCRIPT_NAME / Host / port variants, histories on ONE request object whose environment changes between calls '
-        '(path_info_pop, script_name assignment, rewritten Host/scheme/port); plus urllib.parse decoder and quote streams. non-trivial = a URL was '
+        '(path_info_pop, script_name assignment, rewritten Host/scheme/port) or that served earlier calls with other arguments, '
+        'routes whose pattern is a full URL (scheme / userinfo / port in the pattern), the function forms of pyramid.url; '
+        'plus urllib.parse decoder, urljoin and quote streams. non-trivial = a URL was '
         'produced AND (some supplied element/query/anchor/script character needs quoting OR an override is present OR the '
         'route has a placeholder); distinct by full case')
 ASSUMPTIONS = [
@@ -156,7 +158,7 @@ def gen_lit(rng, maxlen=5):
 
 
 def _external(pattern):
-    """add_route treats a pattern with a host part as an external URL (pregenerator): not modelled"""
+    """add_route treats a pattern with a host part as an external URL (pregenerator puts scheme://netloc into _app_url)"""
     from urllib.parse import urlparse
     try:
         return bool(urlparse(pattern).hostname) or bool(urlparse(pattern).scheme)
@@ -164,9 +166,41 @@ def _external(pattern):
         return True
 
 
-def gen_pattern(rng):
+_EXT_ROUTE_RE = re.compile(r'^(?:[a-z][a-z0-9+.-]*:)?//(?:[A-Za-z0-9._~-]+@)?[A-Za-z0-9.-]*[A-Za-z0-9](?::[0-9]+)?(?:/[^?#;]*)?$')
+
+
+def ext_parts(pattern):
+    """(scheme or None, netloc, path) of a route pattern that is a full URL in the modelled class, else None"""
+    from urllib.parse import urlparse
+    if not isinstance(pattern, str) or not _EXT_ROUTE_RE.match(pattern):
+        return None
+    try:
+        p = urlparse(pattern)
+    except ValueError:
+        return None
+    if not p.hostname or p.params or p.query or p.fragment or '[' in p.netloc:
+        return None
+    return (p.scheme or None, p.netloc, p.path)
+
+
+def route_ok(pattern):
+    if ext_parts(pattern) is not None:
+        return parse_pattern(pattern) is not None
+    return not _external(pattern) and parse_pattern(pattern) is not None
+
+
+EXT_ROUTE_BASES = ['https://cdn.example.com:8443', '//media.example.com:8080', 'http://user@h.example', 'https://cdn.example.com',
+                   '//h.example', 'ftp://files.example:21', 'https://u@cdn.example.com:444']
+
+
+def gen_pattern(rng, external=0.0):
     while True:
         p = _gen_pattern(rng)
+        if rng.random() < external:
+            p = rng.choice(EXT_ROUTE_BASES) + ('/' + p.lstrip('/') if rng.random() < 0.9 else '')
+            if ext_parts(p) is not None and parse_pattern(p) is not None:
+                return p
+            continue
         if not _external(p) and parse_pattern(p) is not None:
             return p
 
@@ -322,7 +356,7 @@ def gen_elements(rng):
 
 def gen_routes(rng):
     names = rng.sample(['home', 'r1', 'r2', 'item'], rng.choice([1, 1, 2, 3]))
-    return [[n, gen_pattern(rng)] for n in names]
+    return [[n, gen_pattern(rng, 0.12)] for n in names]
 
 
 def gen_route_case(rng, ipv6=False):
@@ -462,6 +496,33 @@ def maybe_via_function(rng, c):
     return c
 
 
+def add_call_history(rng, c):
+    """the same helper has been called before on the same request with other arguments (other overrides, keywords,
+    elements); nothing of an earlier call may survive into a later one"""
+    pcs = []
+    h = c['helper']
+    for _ in range(rng.choice([1, 1, 2])):
+        pc = {'ov': gen_ov(rng)}
+        if h in ('route', 'current'):
+            name = c.get('route_name') if h == 'route' else (c.get('cur_route_name') or c.get('matched'))
+            pat = dict((n, p) for n, p in c['routes']).get(name, '/')
+            pc['kw'] = gen_kw_for(rng, pat) if rng.random() < 0.8 else []
+            if rng.random() < 0.3:
+                pc['kw'] = [kv for kv in pc['kw'] if kv[0] not in ('page', 'extra')] + [[rng.choice(['page', 'extra']), ['v', ['s', gen_word(rng)]]]]
+        if h == 'static':
+            pc['kw'] = []
+        if h != 'static':
+            pc['elements'] = gen_elements(rng)
+        pcs.append(pc)
+    c['pre_calls'] = pcs
+    return c
+
+
+def gen_call_history_case(rng):
+    c = rng.choice([gen_current_case, gen_current_case, gen_route_case, gen_resource_case, gen_static_case])(rng)
+    return add_call_history(rng, c)
+
+
 def gen_history_case(rng):
     c = rng.choice([gen_route_case, gen_route_case, gen_resource_case, gen_current_case, gen_static_case])(rng)
     if rng.random() < 0.7:
@@ -545,8 +606,10 @@ def generate(rng, tier, n):
             yield maybe_via_function(rng, gen_static_case(rng))
         elif r < 0.80:
             yield maybe_via_function(rng, gen_current_case(rng))
-        elif r < 0.815:
+        elif r < 0.812:
             yield gen_history_case(rng)
+        elif r < 0.824:
+            yield gen_call_history_case(rng)
         elif r < 0.83:
             yield (gen_typed_case(rng) if rng.random() < 0.5 else gen_typed_query_case(rng)) if typed else gen_route_case(rng)
         elif r < 0.92:
@@ -588,6 +651,7 @@ def targeted(broken, disagreements, rng):
         out.append(gen_typed_case(rng))
         out.append(gen_typed_query_case(rng))
         out.append(gen_history_case(rng))
+        out.append(gen_call_history_case(rng))
     # every ASCII character in the first / a later segment of an asset under a URL registration
     for ch in [chr(i) for i in range(128)] + ['\xe9', '\u20ac']:
         for sub in ('a' + ch + 'b.css', 'd/' + ch + 'x', ch):
@@ -712,6 +776,13 @@ def valid(case):
             return False
         if case.get('via', 'method') not in ('method', 'function'):
             return False
+        for pc in case.get('pre_calls', []):
+            if not isinstance(pc, dict) or not set(pc) <= {'ov', 'kw', 'elements'} or 'ov' not in pc:
+                return False
+            c2 = dict(case, **pc)
+            c2.pop('pre_calls')
+            if not valid(c2):
+                return False
         for pe in case.get('pre_envs', []):
             if not (isinstance(pe, dict) and all(isinstance(pe.get(f), str) for f in ('scheme', 'server_name', 'server_port', 'script_name'))
                     and (pe.get('http_host') is None or isinstance(pe['http_host'], str)) and _no_surrogate(pe['script_name'])
@@ -723,7 +794,7 @@ def valid(case):
             if not case['routes'] or len({r[0] for r in case['routes']}) != len(case['routes']):
                 return False
             for n, p in case['routes']:
-                if not n or not isinstance(p, str) or not _no_surrogate(p) or _external(p) or parse_pattern(p) is None:
+                if not n or not isinstance(p, str) or not _no_surrogate(p) or not route_ok(p):
                     return False
             if not _kw_ok(case['kw']):
                 return False
@@ -745,7 +816,7 @@ def valid(case):
             if len({r[0] for r in rs}) != len(rs):
                 return False
             for n, p in rs:
-                if not n or not isinstance(p, str) or not _no_surrogate(p) or _external(p) or parse_pattern(p) is None:
+                if not n or not isinstance(p, str) or not _no_surrogate(p) or not route_ok(p) or ext_parts(p) is not None:
                     return False
             if rn is not None:
                 if not (isinstance(rn['route_name'], str) and isinstance(rn['rem'], str) and rn['rem']
@@ -788,7 +859,7 @@ def shrinks(case):
         yield dict(case, env=dict(env, script_name=''))
     if env['http_host'] is not None:
         yield dict(case, env=dict(env, http_host=None))
-    for k in ('pre_envs', 'warm_q', 'ov', 'kw', 'elements', 'warm', 'matchdict', 'get', 'names'):
+    for k in ('pre_calls', 'pre_envs', 'warm_q', 'ov', 'kw', 'elements', 'warm', 'matchdict', 'get', 'names'):
         if k in case:
             for sv in generic_shrinks(case[k]):
                 yield dict(case, **{k: sv})
@@ -812,6 +883,9 @@ def _regexes():
 def parse_pattern(route):
     """the first half of _compile_route: prefix, (name, literal)*, star name.  None: outside the modelled class"""
     rx = _regexes()
+    xp = ext_parts(route)
+    if xp is not None:
+        route = xp[2]                 # add_route: pattern = parsed.path
     if rx['old'].search(route) and not rx['route'].search(route):
         route = rx['old'].sub(lambda m: '{%s}' % m.group(0)[1:], route)
     if not route.startswith('/'):
@@ -914,6 +988,10 @@ def _w_routes(rs):
     return [[n, _w_pattern(p)] for n, p in rs]
 
 
+def _w_exts(rs):
+    return [[n, _opt(ext_parts(p)[0]), ext_parts(p)[1]] for n, p in rs if ext_parts(p) is not None]
+
+
 def _static_routes(case):
     """what add_static_view registers: (spec with trailing slash, route name, pattern, url)"""
     from urllib.parse import urlparse
@@ -942,7 +1020,7 @@ def to_wire(case):
     env, ov = _w_env(case['env']), _w_ov(case['ov'])
     if h == 'route':
         return [0, 0, env, _w_routes(case['routes']), case['route_name'], [_w_pval(x) for x in case['elements']], ov,
-                _w_kw(case['kw']), [[_w_pval(x) for x in w] for w in case['warm']]]
+                _w_kw(case['kw']), [[_w_pval(x) for x in w] for w in case['warm']], _w_exts(case['routes'])]
     if h == 'resource':
         rn = case.get('rn')
         return [0, 4, env, _w_routes(case.get('routes') or []), [_w_pval(x) for x in case['names']],
@@ -956,7 +1034,7 @@ def to_wire(case):
     return [0, 3, env, _w_routes(case['routes']), _opt(case['cur_route_name']), _opt(case['matched']),
             _w_kw(case['matchdict']), [[_w_pval(k), _w_qval(v)] for k, v in case['get']],
             [_w_pval(x) for x in case['elements']], ov, _w_kw(case['kw']),
-            [[_w_pval(x) for x in w] for w in case['warm']]]
+            [[_w_pval(x) for x in w] for w in case['warm']], _w_exts(case['routes'])]
 
 
 def from_wire(case, raw):
@@ -964,9 +1042,9 @@ def from_wire(case, raw):
         return {'model': ['MODEL-BAD'], 'spec': None}
     if case['kind'] != 'gen':
         return {'model': raw, 'spec': None}
-    if len(raw) != 4 or len(raw[3]) != 7:
+    if len(raw) != 4 or len(raw[3]) != 8:
         return {'model': ['MODEL-BAD', raw], 'spec': None}
-    return {'model': raw[:3], 'spec': raw[3]}
+    return {'model': raw[:3] + [[]], 'spec': raw[3]}      # [] : the model mutates none of its inputs
 
 
 # ------------------------------------------------------------ implementation
@@ -1164,7 +1242,23 @@ def run_impl(case):
             req.resource_url(_Res('', None), query=_py_query(wq))
         except Exception:
             pass
+    # what belongs to the request is set ONCE: later calls see what earlier calls left behind
+    if h == 'current':
+        if case['matched'] is not None:
+            req.matched_route = cfg.get_routes_mapper().get_route(case['matched'])
+        req.matchdict = {k: _py_kwval(v) for k, v in case['matchdict']}
+        if [[['s', a], ['v', ['s', b]]] for a, b in req.GET.items()] != case['get']:
+            raise RuntimeError('GET did not parse back to the case')
+    if h == 'resource' and case.get('vroot') is not None:
+        req.environ['HTTP_X_VHM_ROOT'] = case['vroot']
+
+    def snapshot():
+        import copy
+        return {'matchdict': copy.deepcopy(getattr(req, 'matchdict', None)),
+                'environ': {k: v for k, v in req.environ.items() if isinstance(v, str)},
+                'attrs': sorted(k for k in vars(req) if not k.startswith('_')) }
     u = p = None
+    changed = []
     for step, env_now in enumerate(hist + [case['env']]):
         if step:
             _apply_env(req, env_now, step)
@@ -1177,8 +1271,18 @@ def run_impl(case):
                     f()
                 except Exception:
                     pass
+        # earlier calls of the same helper with OTHER arguments on this request
+        for pc in case.get('pre_calls') or []:
+            c2 = dict(case, **pc)
+            before = snapshot()
+            _observe(c2, req, cfg, h, c2['ov'], [_py_pval(x) for x in c2.get('elements', [])])
+            after = snapshot()
+            changed += [k for k in before if before[k] != after[k] and k not in changed]
+        before = snapshot()
         u, p = _observe(case, req, cfg, h, ov, els)
-    return [u, p, py_decode(u[1]) if u[0] == 0 else []]
+        after = snapshot()
+        changed += [k for k in before if before[k] != after[k] and k not in changed]
+    return [u, p, py_decode(u[1]) if u[0] == 0 else [], sorted(changed)]
 
 
 def _observe(case, req, cfg, h, ov, els):
@@ -1200,9 +1304,6 @@ def _observe(case, req, cfg, h, ov, els):
         ob = _Res('', None)
         for nm in case['names']:
             ob = _Res(_py_pval(nm), ob)
-        if case.get('vroot') is not None:
-            req.environ['HTTP_X_VHM_ROOT'] = case['vroot']
-
         def args():
             kw = _ov_kwargs(ov, '')
             rn = case.get('rn')
@@ -1227,13 +1328,6 @@ def _observe(case, req, cfg, h, ov, els):
             u = _call(lambda: req.static_url(case['path'], **args()))
             p = _call(lambda: req.static_path(case['path'], **args()))
     else:
-        mapper = cfg.get_routes_mapper()
-        if case['matched'] is not None:
-            req.matched_route = mapper.get_route(case['matched'])
-        req.matchdict = {k: _py_kwval(v) for k, v in case['matchdict']}
-        if [[['s', a], ['v', ['s', b]]] for a, b in req.GET.items()] != case['get']:
-            raise RuntimeError('GET did not parse back to the case')
-
         def args():
             kw = {k: _py_kwval(v) for k, v in case['kw']}
             kw.update(_ov_kwargs(ov, '_'))
@@ -1326,9 +1420,11 @@ def judge_gen(case, obs, spec):
     """-> (ok, reason, tag)"""
     from urllib.parse import urlsplit
     u, p = obs[0], obs[1]
-    if spec is None or len(spec) != 7:
+    if spec is None or len(spec) != 8:
         return None, 'no spec', None
-    auth, els, query, anchor, script, ext, must = spec
+    auth, els, query, anchor, script, ext, must, xauth = spec
+    if len(obs) > 3 and obs[3]:
+        return False, 'the call changed its inputs: %s' % obs[3], 'url' 
     if u[0] != 0:
         if must == 1:
             return False, 'no URL produced (%s) although the route exists, every placeholder has a value and every ' \
@@ -1348,6 +1444,15 @@ def judge_gen(case, obs, spec):
             return False, 'url form: ' + why, 'url'
         if p != u:
             return False, 'static_path differs from static_url for a URL registration', 'path'
+        return True, None, None
+    if xauth:
+        # the route's pattern is a full URL: its scheme://netloc (port, userinfo) comes first, no script name; *_path is refused
+        rest = U[len(xauth[0]):]
+        if not U.startswith(xauth[0]) or rest[:1] not in ('/', '?', '#', ''):
+            return False, 'the result does not start with the authority of the route pattern %r' % xauth[0], 'url'
+        why = _tail_ok(rest, spec)
+        if why is not None:
+            return False, 'url form: ' + why, 'url'
         return True, None, None
     if ov['app_url'] is not None:
         if not U.startswith(ov['app_url']):
@@ -1512,6 +1617,10 @@ def kinds(case, obs):
         out.append('request-history')
     if case.get('via') == 'function':
         out.append('via-module-functions')
+    if case.get('pre_calls'):
+        out.append('call-history')
+    if any(ext_parts(pp) is not None for _n, pp in case.get('routes') or []):
+        out.append('has-external-route')
     if ov['query'] is not None and ov['query'][0] != 's' and any(
             k[0] == 'n' or (v[0] == 'v' and v[1][0] == 'n') or (v[0] == 'q' and any(x[0] in 'no' for x in v[1]))
             for k, v in ov['query'][1]):
